@@ -60,6 +60,24 @@ def finishRows {K : Type} (out : Rows K) : Option (List K) := out.mapM id
 /-- `ns[-1]` -/
 def lastOrder (ns : List Nat) : Int := ((ns.getLastD 0 : Nat) : Int)
 
+/-- kind of a NumPy dtype, as far as storing the values of a recurrence is concerned -/
+inductive DKind | bool | int | float | complex
+deriving DecidableEq, Repr
+/-- `np.result_type(x, 1.0)`: what the coordinate dtype becomes when it meets a Python float -/
+def DKind.withFloat : DKind → DKind
+  | .bool => .float
+  | .int => .float
+  | k => k
+/-- can an array of this kind hold the (floating-point) values of a polynomial without truncation? -/
+def DKind.holdsFloats : DKind → Bool
+  | .float => true
+  | .complex => true
+  | _ => false
+
+/-- entry `j` of the table `dickson<k>_seq(arange(0, max+1), a, x)` (what `xy_seq` reads) -/
+def seqEntry1 {K : Type} [Num K] (j : Int) (a x : K) : K := Model.C07.dickson1 j.toNat a x
+def seqEntry2 {K : Type} [Num K] (j : Int) (a x : K) : K := Model.C07.dickson2 j.toNat a x
+
 /-! ## the families as `Rec`s -/
 section families
 variable {K : Type} [Num K]
